@@ -8,6 +8,27 @@ CLAIMS = {
         "note": "Assumed: vstd's specs of checked_{add,sub,mul,div_euclid,rem_euclid}; assume_specification for checked_neg/checked_pow/i128::try_from(u128); float arithmetic results uninterpreted in Verus (IEEE result taken as the definition); routing of the VM operator arms to these functions is read, not proved.",
         "design_ref": "DESIGN.md section 4, C13",
     },
+    "C09": {
+        "engine": "V",
+        "technique": "Verus loop invariants and lemmas on the extracted real text of Chunk::optimize: structural + content postcondition for all instruction sequences",
+        "text": "Proof, unbounded: for every instruction sequence whose jump targets are in range, Chunk::optimize (real text, 60-variant Instruction enum) returns a sequence related to the input by an index map such that order is kept, only LoadAttr/WriteTop that no jump targets are absorbed, groups start with a LoadName other than the dump variable, un-merged instructions are verbatim with jump targets sent through the map (so every jump lands on the instruction it pointed to), and each fused LoadPath/WritePath carries exactly the name, attributes and spans of its group (WritePath iff the group ends in WriteTop). Index accesses and both unreachable!() are proved safe.",
+        "note": "Undecided: semantic equivalence of the fused VM arms (LoadPath/WritePath) with the unfused sequence (two-program equivalence inside interpret); the precondition 'jump targets <= len' is established by the compiler (read, not proved). Assumed std contracts: mem::take, mem::replace+Clone on a vector element (R6), Vec::extend (R11).",
+        "design_ref": "DESIGN.md section 4 C09, Appendix A.5",
+    },
+    "C14": {
+        "engine": "V+K",
+        "technique": "Verus proof of the real slice_items against a CPython-slice spec (unbounded); Kani full-domain harness on resolve_index",
+        "text": "Proof for all lengths and all Option<i128> start/stop and all non-zero i128 steps: Value::slice::slice_items returns exactly the elements Python's slice selects, in order, with every index in bounds and the loop terminating (saturation at the ends of i128 handled); index normalisation resolve_index proved over all i128/u128 indices and all lengths.",
+        "note": "Undecided: the Slice/SliceOpt operand-validation arm of interpret, character-wise string handling beyond bounded harnesses. Assumed: i128::saturating_add and Ord::clamp contracts.",
+        "design_ref": "DESIGN.md section 4 C14, Appendix A.1",
+    },
+    "C17": {
+        "engine": "V+K",
+        "technique": "Verus proof of the real functions::range (exact progression, overflow freedom, cap); Kani full-domain harnesses on numeric tests and conversions",
+        "text": "Proof, unbounded: range() returns Err for step 0 and for start > end with positive step, otherwise exactly the arithmetic progression start + i*step strictly on the near side of end, at most 100000 elements, with start + i*step_by never overflowing.",
+        "note": "Kwargs::get/must_get are trusted declarations with uninterpreted results; std-delegating string filters are std's contract; i128::checked_neg assumed.",
+        "design_ref": "DESIGN.md section 4 C17",
+    },
 }
 
 _PENDING = "no check is registered for this property yet in this build of the machinery"
